@@ -26,10 +26,18 @@ UNIT = {
     'items': [
         ('@raw', 'pub mod ws {\n' + MOD_HEAD),
         (SEM, ['struct ExitStatus']),
+        (SEM, ['impl ExitStatus#1', 'const SUCCESS']), (SEM, ['impl ExitStatus#1', 'const FAILURE']), (SEM, ['impl ExitStatus#1', 'const ERROR']),
         (JOB, ['enum ProcessResult'], {}),
         (JOB, ['impl ProcessResult', 'fn is_stopped'], {'ret': 'r', 'ensures': ['r == (*self is Stopped)']}),
         (JOB, ['enum ProcessState'], {}),
         ('@file', 'prelude.rs'),
+        # the two conversions from a reported state to an exit status
+        (JOB, ['impl From<ProcessResult> for ExitStatus', 'fn from'], {'ret': 'e',
+            'ensures': ['e == exit_status_of(result)']}),
+        (JOB, ['struct RunningProcess'], {}),
+        (JOB, ['impl TryFrom<ProcessState> for ExitStatus', 'fn try_from'], {'ret': 'r', 'keep_assoc_types': True,
+            # only a child that is not running has a status: the one its result stands for
+            'ensures': ['r == (match state { ProcessState::Halted(res) => Ok::<ExitStatus, RunningProcess>(exit_status_of(res)), ProcessState::Running => Err::<ExitStatus, RunningProcess>(RunningProcess) })']}),
         (LIB, [W, 'fn wait_for_subshell'], dict(ASYNC, ret='r', wrapper=WRAP,
             attrs=['#[verifier::exec_allows_no_decreases_clause]'],
             token_rewrites=CALLS,
